@@ -257,6 +257,9 @@ package pubsub
 // OnClosedOutboundStream (retention): a positive score is dropped with the peer's statistics; a
 // non-positive one is retained for RetainScore with first-delivery credit reset to zero, the
 // sticky mesh-failure penalty applied, and the peer out of every mesh.
+//@ spec fn stickyDeficit(ps *peerScore, o *topicStats, t string) float64 = ite(o.inMesh && o.meshMessageDeliveriesActive &&
+//@      o.meshMessageDeliveries < ps.params.Topics[t].MeshMessageDeliveriesThreshold,
+//@      (ps.params.Topics[t].MeshMessageDeliveriesThreshold - o.meshMessageDeliveries) * (ps.params.Topics[t].MeshMessageDeliveriesThreshold - o.meshMessageDeliveries), 0.0)
 //@ func (*peerScore).OnClosedOutboundStream
 //@   property C10 C13
 //@   rmul-signs
@@ -266,6 +269,12 @@ package pubsub
 //@        (forall o *topicStats :: lin(allocated(o)) ==> o.meshFailurePenalty >= lin(o.meshFailurePenalty) && o.invalidMessageDeliveries == lin(o.invalidMessageDeliveries)) &&
 //@        (forall q string :: (q in ps.peerStats) == lin(q in ps.peerStats) && ps.peerStats[q] == lin(ps.peerStats[q])) &&
 //@        calls((*peerScore).score) == old(calls((*peerScore).score)) + 1 && !(lastret((*peerScore).score) > 0.0)
+//@   loop 1 invariant unvisited-kept: forall t string :: t in pstats.topics && !$visited[t] ==> pstats.topics[t].inMesh == lin(pstats.topics[t].inMesh)
+//@   loop 1 invariant sticky-exact: ps.params == lin(ps.params) && (forall t string :: t in pstats.topics ==> pstats.topics[t].meshFailurePenalty ==
+//@        lin(pstats.topics[t].meshFailurePenalty) + ite($visited[t], lin(stickyDeficit(ps, pstats.topics[t], t)), 0.0))
+//@   ensures sticky-only-for-mesh-members: lin(p in ps.peerStats) && !(lastret((*peerScore).score) > 0.0) ==>
+//@        (forall t string :: t in ps.peerStats[p].topics ==> ps.peerStats[p].topics[t].meshFailurePenalty ==
+//@            lin(ps.peerStats[p].topics[t].meshFailurePenalty) + lin(stickyDeficit(ps, ps.peerStats[p].topics[t], t)))
 //@   ensures unknown-peer: !lin(p in ps.peerStats) ==> (forall q string :: (q in ps.peerStats) == lin(q in ps.peerStats))
 //@   ensures positive-dropped: lin(p in ps.peerStats) && lastret((*peerScore).score) > 0.0 ==> !(p in ps.peerStats)
 //@   ensures scored-once: lin(p in ps.peerStats) ==> calls((*peerScore).score) == old(calls((*peerScore).score)) + 1 && lastarg((*peerScore).score, 1) == p
